@@ -61,7 +61,7 @@ theorem item_mem {bits e x : Nat} (he : e < 2 ^ bits) (hx : x < 2 ^ bits) :
   · intro h i _; rw [h]
 
 /-- for any machine integer: the cube of `e` holds exactly `e mod 2^bits` (only the low bits are read) -/
-theorem item_mem' {bits e x : Nat} (hx : x < 2 ^ bits) :
+theorem item_mem_mod {bits e x : Nat} (hx : x < 2 ^ bits) :
     mem (item bits e) x = true ↔ x = e % 2 ^ bits := by
   unfold mem item
   rw [eval_item_aux]
@@ -155,13 +155,13 @@ theorem contains_iff {bits e : Nat} {s : BDD} (hs : WFSet bits s) (he : e < 2 ^ 
       simp [h]
 
 /-- the query for any machine integer asks for its low `bits` bits -/
-theorem contains_iff' {bits e : Nat} {s : BDD} (hs : WFSet bits s) :
+theorem contains_iff_mod {bits e : Nat} {s : BDD} (hs : WFSet bits s) :
     BDD.and s (item bits e) = item bits e ↔ mem s (e % 2 ^ bits) = true := by
   have hi := wf_item bits e
   have hlt : e % 2 ^ bits < 2 ^ bits := Nat.mod_lt _ (Nat.two_pow_pos _)
   constructor
   · intro h
-    have h1 : mem (item bits e) (e % 2 ^ bits) = true := (item_mem' hlt).mpr rfl
+    have h1 : mem (item bits e) (e % 2 ^ bits) = true := (item_mem_mod hlt).mpr rfl
     have : eval (BDD.and s (item bits e)) (asgOfElem (e % 2 ^ bits)) = true := by rw [h]; exact h1
     rw [BDD.eval_and] at this
     simp only [mem]
@@ -324,7 +324,7 @@ theorem step_refines {st st' : State} {r : List RefSet} {op : SetOp} {ans : Opti
     have h1 := hm x hx
     simp only [mem] at h1
     rw [h1]
-    have h2 := item_mem' (bits := st.bits) (e := e) hx
+    have h2 := item_mem_mod (bits := st.bits) (e := e) hx
     simp only [mem] at h2
     cases hit : eval (item st.bits e) (asgOfElem x)
     · have : ¬ x = e % 2 ^ st.bits := fun e' => by rw [h2.mpr e'] at hit; simp at hit
@@ -397,7 +397,7 @@ theorem step_refines {st st' : State} {r : List RefSet} {op : SetOp} {ans : Opti
     simp only [refStep]
     congr 1
     rw [← hm _ (Nat.mod_lt _ (Nat.two_pow_pos _))]
-    have := contains_iff' (e := e) hw
+    have := contains_iff_mod (e := e) hw
     cases hx : mem s (e % 2 ^ st.bits)
     · simp [hx] at this; simp [this]
     · simp [hx] at this; simp [this]
@@ -410,7 +410,7 @@ theorem step_refines {st st' : State} {r : List RefSet} {op : SetOp} {ans : Opti
     obtain ⟨rfl, rfl⟩ := hs
     refine ⟨agree_push h (wf_or (wf_const _ false) (wf_item _ _)) (fun x hx => ?_), rfl, rfl⟩
     simp only [mem, BDD.eval_or, eval_mkConst, Bool.false_or]
-    have h2 := item_mem' (bits := st.bits) (e := e) hx
+    have h2 := item_mem_mod (bits := st.bits) (e := e) hx
     simp only [mem] at h2
     cases hit : eval (item st.bits e) (asgOfElem x)
     · have : ¬ x = e % 2 ^ st.bits := fun e' => by rw [h2.mpr e'] at hit; simp at hit
